@@ -1,10 +1,10 @@
 package main
 
 import (
-	"math"
 	"context"
 	"errors"
 	"fmt"
+	"math"
 	"net"
 	"runtime"
 	"strings"
@@ -51,16 +51,16 @@ type PReply struct {
 func (p *PReply) Reset() { *p = PReply{} }
 
 type srvRig struct {
-	s         *server.Server
-	ln        net.Listener
-	addr      string
-	mu        sync.Mutex
-	invoked   map[int]int
-	gates     map[int]chan struct{}
-	started   map[int]chan struct{}
-	accepted  int32
-	seen      map[int][]seenRec
-	pooledBad int32
+	s              *server.Server
+	ln             net.Listener
+	addr           string
+	mu             sync.Mutex
+	invoked        map[int]int
+	gates          map[int]chan struct{}
+	started        map[int]chan struct{}
+	accepted       int32
+	seen           map[int][]seenRec
+	pooledBad      int32
 	pooledReplyBad int32
 }
 
